@@ -183,7 +183,7 @@ def cell_reachable(E, kind):
     """fixpoint of the values the dispatch code can leave in its cache cell on a CPU of this kind; cached per program"""
     cache = E.P.__dict__.setdefault('_cell_reach', {})
     if kind in cache: return cache[kind]
-    entries = [f for n, f in E.funcs.items() if n.startswith('runtime::match_')]
+    entries = [f for n, f in E.funcs.items() if re.search(r'::match_(uri|header_value|header_name)_vectored$', n) and not n.startswith(('swar::', 'sse42::', 'avx2::', 'neon::'))]
     if not entries: raise Unsupported('no runtime dispatcher in this build')
     R = [0]
     for _ in range(8):
